@@ -89,6 +89,15 @@ def navStep (rs : RState) (t : Nat) (r : Red) (p : Path) (isNode : Bool) : List 
     | ["arity_with_tokens"] => match r.green p with | some g => some (rs, toString g.children.length) | none => some (rs, "?")
     | _ => none
 
+/-- discard `k` items; `true` when the iterator ran out on the way -/
+def chiterSkip (nodes : Bool) (it : Red.It) (r : Red) : Nat → Red.It × Red × Bool
+  | 0 => (it, r, false)
+  | k + 1 =>
+    let res := if nodes then it.nextNode r (it.rest.length + 1) else it.nextElem r
+    match res.1 with
+    | some _ => chiterSkip nodes res.2.1 res.2.2 k
+    | none => (res.2.1, res.2.2, true)
+
 /-- `chiter`: drive a child iterator -/
 def chiterOps (rs : RState) (t : Nat) (nodes : Bool) (it : Red.It) (r : Red) : List String → RState × Red × List String
   | [] => (rs, r, [])
@@ -105,7 +114,24 @@ def chiterOps (rs : RState) (t : Nat) (nodes : Bool) (it : Red.It) (r : Red) : L
     | "len" => let (rs2, r2, ss) := chiterOps rs t nodes it r rest; (rs2, r2, toString n :: ss)
     | "size_hint" => let (rs2, r2, ss) := chiterOps rs t nodes it r rest; (rs2, r2, s!"{n},{n}" :: ss)
     | "count" => (rs, r, [toString n])
-    | _ => (rs, r, ["bad-op"])
+    | _ =>
+      if op.startsWith "nth" then
+        -- `Iterator::nth` (not overridden by the crate): `k` calls of `next` are discarded, the next one is the answer
+        match (op.drop 3).toNat? with
+        | some k =>
+          let (it1, r1, dead) := chiterSkip nodes it r k
+          if dead then
+            let (rs2, r2, ss) := chiterOps rs t nodes it1 r1 rest
+            (rs2, r2, "none" :: ss)
+          else
+            let res := if nodes then it1.nextNode r1 (it1.rest.length + 1) else it1.nextElem r1
+            let (rs1, s) := match res.1 with
+              | some p => showEl rs t res.2.2 p
+              | none => (rs, "none")
+            let (rs2, r2, ss) := chiterOps rs1 t nodes res.2.1 res.2.2 rest
+            (rs2, r2, s :: ss)
+        | none => (rs, r, ["bad-op"])
+      else (rs, r, ["bad-op"])
 
 end Cst.Drv
 
